@@ -45,6 +45,19 @@ func (b *EventBox) Set(event EventType, value any) {
 	b.cond.L.Unlock()
 }
 
+// Update turns on the event type on the box with the value returned by the
+// given function, which is called with the pending value of the event (nil if
+// the event is not set) so that a value that was not consumed yet can be
+// merged into the new one instead of being overwritten
+func (b *EventBox) Update(event EventType, merge func(pending any) any) {
+	b.cond.L.Lock()
+	b.events[event] = merge(b.events[event])
+	if _, found := b.ignore[event]; !found {
+		b.cond.Broadcast()
+	}
+	b.cond.L.Unlock()
+}
+
 // Clear clears the events
 // Unsynchronized; should be called within Wait routine
 func (events *Events) Clear() {
